@@ -481,11 +481,23 @@ def axis_reference(ctx):
         from ..flow import bindings as _bindings, const_value as _cv
         kw = fn.args.kwarg.arg if fn.args.kwarg else "kwargs"
         role = {}
+        single = {}
+        for tg, v, node_ in _bindings(fn):
+            if isinstance(tg, ast.Name):
+                single.setdefault(tg.id, []).append(v)
+
+        def through(n_):
+            # a local bound once stands for its value
+            while isinstance(n_, ast.Name) and len(single.get(n_.id, ())) == 1 and single[n_.id][0] is not None:
+                n_ = single[n_.id][0]
+            return n_
+
         for tg, v, node_ in _bindings(fn):
             if isinstance(tg, ast.Name) and isinstance(v, ast.Call) and isinstance(v.func, ast.Attribute) and v.func.attr == "get" and isinstance(v.func.value, ast.Name) and v.func.value.id == kw \
                     and v.args and _cv(ctx.m, v.args[0]) in ("width", "height"):
-                fallback = len(v.args) == 2 and isinstance(v.args[1], ast.Call) and isinstance(v.args[1].func, ast.Attribute) and v.args[1].func.attr == "get" \
-                    and v.args[1].args and _cv(ctx.m, v.args[1].args[0]) == "relative_length"
+                fb = through(v.args[1]) if len(v.args) == 2 else None
+                fallback = isinstance(fb, ast.Call) and isinstance(fb.func, ast.Attribute) and fb.func.attr == "get" \
+                    and bool(fb.args) and _cv(ctx.m, fb.args[0]) == "relative_length"
                 role[tg.id] = (_cv(ctx.m, v.args[0]), fallback)
         by_axis = {r[0]: (nm, r[1]) for nm, r in role.items()}
         ctx.ob("R03.7", "%s.render[reference lengths]" % cname, set(by_axis) == {"width", "height"} and all(f for _, f in by_axis.values()),
